@@ -548,6 +548,11 @@ func (e *Exec) execSelect(fr *Frame, st *State, x *ssa.Select) {
 	fr.vals[x] = res
 	e.selectHook(fr, st, x, res)
 	e.selectTiming(fr, st, x, idx)
+	if fr.top && e.fc != nil {
+		if cs, ok := e.callOrd[x]; ok && e.hasSiteAfter(cs) {
+			e.runSiteAfter(fr, st, x, cs, nil, &res)
+		}
+	}
 }
 
 // selectTiming: a blocking select may take any amount of time, except that a
